@@ -247,6 +247,23 @@ func genMuxFault(seed uint64, n int, maxOps int, emit func(interface{})) {
 func genMuxSweep(r *rng, sc *muxScenario, demux bool) {
 	sc.Ops = append(sc.Ops, muxOp{Op: "add", PID: 0x0fff, ST: 15, DK: "none"}, muxOp{Op: "setpcr", PID: 0x0fff})
 	n := 0
+	if r.boolean() {
+		// all the way to the top of the PID range, whose last PIDs are held by explicit streams: the assignments end with an error, never
+		// with the null PID or a PID in use
+		sc.Ops = append(sc.Ops, muxOp{Op: "add", PID: 0x1ffe, ST: 15, DK: "none"})
+		if r.boolean() {
+			sc.Ops = append(sc.Ops, muxOp{Op: "add", PID: 0x1ffd, ST: 15, DK: "none"})
+		}
+		for i := 0; i < 7945; i++ {
+			sc.Ops = append(sc.Ops, muxOp{Op: "add", PID: 0, ST: 27, DK: "none"})
+			n++
+			if i < 7925 || i%2 == 0 {
+				sc.Ops = append(sc.Ops, muxOp{Op: "remove", PID: -n})
+			}
+		}
+		sc.Ops = append(sc.Ops, muxOp{Op: "tables"}, muxOp{Op: "data", PID: 0x0fff, Len: 200, Hdr: "pts", AF: "pcr"})
+		return
+	}
 	for i := 0; i < 3860; i++ {
 		sc.Ops = append(sc.Ops, muxOp{Op: "add", PID: 0, ST: 27, DK: "none"})
 		n++
